@@ -531,13 +531,14 @@ theorem fieldCore_sound {c : Cfg} {name : Str} {tag : Option Str} {isSlice : Boo
         · rw [if_neg hk] at h ⊢
           split at h
           · simp at h
-          · split at h
-            · simp at h
-            · change (depOK (effOpts po) key m && _) = true
-              rw [hdep, Bool.true_and]
-              cases hg : getKey key m with
+          · change (depOK (effOpts po) key m && _) = true
+            rw [hdep, Bool.true_and]
+            cases hl : lookupKey c key m with
+            | error e => simp [hl] at h
+            | ok lk =>
+            cases lk with
               | none =>
-                simp only [hg] at h ⊢
+                simp only [hl] at h ⊢
                 rw [← hdef]
                 by_cases hd : optDefault om ≠ []
                 · rw [if_pos hd] at h
@@ -551,7 +552,7 @@ theorem fieldCore_sound {c : Cfg} {name : Str} {tag : Option Str} {isSlice : Boo
                   · rw [if_pos ho] at h ⊢; simp at h; subst h; exact hz
                   · rw [if_neg ho] at h ⊢; exact har _ h
               | some j0 =>
-                simp only [hg, hc] at h ⊢
+                simp only [hl, hc] at h ⊢
                 simp only [Bool.false_and, Bool.false_eq_true, if_false] at h
                 cases hj : fromArrayValue c isSlice j0 with
                 | null =>
@@ -677,6 +678,9 @@ theorem sliceResult_sound {p : J → Val → Bool} {l : List J} {vs : VList} (h 
     · simp [h1, h2]
     · simp [h1, h2, h]
 
+theorem Cfg.top_pinned {c : Cfg} (h : c.pinned = false) : c.top.pinned = false := h
+theorem Cfg.nest_pinned {c : Cfg} (h : c.pinned = false) : c.nest.pinned = false := h
+
 /-- the slice case shared by `withValue`, `elemValue` and `mapElemValue` -/
 theorem slice_sound {c : Cfg} {t : Ty} {l : List J} {v : Val} {ev : J → Except Err Val}
     (hev : ∀ j v, ev j = .ok v → satTy c t j v = true)
@@ -737,7 +741,7 @@ theorem withValue_sound (c : Cfg) (hc : c.pinned = false) :
     cases j with
     | arr l =>
       simp only at h
-      exact ⟨by simpa [satTy] using slice_sound (fun j v hv => elemValue_sound c hc t j v hv) h,
+      exact ⟨by simpa [satTy] using slice_sound (c := c.top) (fun j v hv => elemValue_sound c.top (Cfg.top_pinned hc) t j v hv) h,
         by simp [derefKind, rangeOK_none], by simp [derefKind, optionsOK_none]⟩
     | obj m => simp at h
     | num lit => simp at h
@@ -751,7 +755,7 @@ theorem withValue_sound (c : Cfg) (hc : c.pinned = false) :
       simp only at h
       obtain ⟨vs, hvs, rfl⟩ := exceptMap_ok h
       exact ⟨by simpa [satTy] using
-          mapEntries_sound (fun j v hv => mapElemValue_sound c hc t j v hv) (canonObj m) vs hvs,
+          mapEntries_sound (fun j v hv => mapElemValue_sound c.top (Cfg.top_pinned hc) t j v hv) (canonObj m) vs hvs,
         by simp [derefKind, rangeOK_none], by simp [derefKind, optionsOK_none]⟩
     | arr l => simp at h
     | num lit => simp at h
@@ -795,7 +799,7 @@ theorem elemValue_sound (c : Cfg) (hc : c.pinned = false) :
     cases j with
     | arr l =>
       simp only at h
-      simpa [satTy] using slice_sound (fun j v hv => elemValue_sound c hc t j v hv) h
+      simpa [satTy] using slice_sound (c := c.top) (fun j v hv => elemValue_sound c.top (Cfg.top_pinned hc) t j v hv) h
     | obj m => simp at h
     | num lit => simp at h
     | null => simp at h
@@ -808,7 +812,7 @@ theorem elemValue_sound (c : Cfg) (hc : c.pinned = false) :
       simp only at h
       obtain ⟨vs, hvs, rfl⟩ := exceptMap_ok h
       simpa [satTy] using
-        mapEntries_sound (fun j v hv => mapElemValue_sound c hc t j v hv) (canonObj m) vs hvs
+        mapEntries_sound (fun j v hv => mapElemValue_sound c.top (Cfg.top_pinned hc) t j v hv) (canonObj m) vs hvs
     | arr l => simp at h
     | num lit => simp at h
     | null => simp at h
@@ -857,7 +861,7 @@ theorem mapElemValue_sound (c : Cfg) (hc : c.pinned = false) :
     cases j with
     | arr l =>
       simp only at h
-      simpa [satTy] using slice_sound (fun j v hv => elemValue_sound c hc t j v hv) h
+      simpa [satTy] using slice_sound (c := c.top) (fun j v hv => elemValue_sound c.top (Cfg.top_pinned hc) t j v hv) h
     | obj m => simp at h
     | num lit => simp at h
     | null => simp only at h; split at h <;> simp at h
@@ -870,7 +874,7 @@ theorem mapElemValue_sound (c : Cfg) (hc : c.pinned = false) :
       simp only at h
       obtain ⟨vs, hvs, rfl⟩ := exceptMap_ok h
       simpa [satTy] using
-        mapEntries_sound (fun j v hv => mapElemValue_sound c hc t j v hv) (canonObj m) vs hvs
+        mapEntries_sound (fun j v hv => mapElemValue_sound c.top (Cfg.top_pinned hc) t j v hv) (canonObj m) vs hvs
     | arr l => simp at h
     | num lit => simp at h
     | null => simp at h
@@ -894,7 +898,7 @@ theorem absentRequired_sound (c : Cfg) (hc : c.pinned = false) :
       | false =>
         simp only [hr] at h
         obtain ⟨vs, hvs, rfl⟩ := exceptMap_ok h
-        simpa [satAbsent] using unmFields_sound c hc fs [] vs hvs
+        simpa [satAbsent] using unmFields_sound c.top (Cfg.top_pinned hc) fs [] vs hvs
   | .slice _, v, h => by simp [absentRequired] at h
   | .map _, v, h => by simp [absentRequired] at h; subst h; simp [satAbsent]
 theorem unmFields_sound (c : Cfg) (hc : c.pinned = false) :
@@ -902,7 +906,7 @@ theorem unmFields_sound (c : Cfg) (hc : c.pinned = false) :
   | .nil, m, vs, h => by simp [unmFields] at h; subst h; simp [satFields]
   | .cons name tag t rest, m, vs, h => by
     unfold unmFields at h
-    cases hf : fieldCore c name tag t.isSlice m (fun o j => withValue c o t j) (fun _ => absentRequired c t)
+    cases hf : fieldCore c name tag t.isSlice m (fun o j => withValue c.nest o t j) (fun _ => absentRequired c t)
         (defaultVal c t) (zero t) with
     | error e => simp [hf] at h
     | ok v =>
@@ -910,9 +914,9 @@ theorem unmFields_sound (c : Cfg) (hc : c.pinned = false) :
       | error e => simp [hf, hrest] at h
       | ok vs' =>
         simp [hf, hrest] at h; subst h
-        have h1 := fieldCore_sound (k := derefKind t) (conv := fun j v => satTy c t j v)
+        have h1 := fieldCore_sound (k := derefKind t) (conv := fun j v => satTy c.nest t j v)
           (absent := fun v => satAbsent c t v) (dflt := fun d v => satDefault t d v) (isZ := fun v => isZero t v) hc
-          (fun o j v hv => withValue_sound c hc t o j v hv)
+          (fun o j v hv => withValue_sound c.nest (Cfg.nest_pinned hc) t o j v hv)
           (fun v hv => absentRequired_sound c hc t v hv)
           (fun d v hv => defaultVal_sound c hc t d v hv)
           (isZero_zero t) hf
